@@ -43,6 +43,15 @@ def check(run):
         c11.NOTIMPL.clear()
         run.extra.setdefault("quality_events", 0)
         run.extra["quality_events"] += sum(1 for t in trs for e in t if e["ev"] in ("quality", "blockscan", "skipq", "replace"))
+    # longer programs over small trees on longer posting lists: block caches across reset()/copy(), repeated
+    # replace() with rising thresholds (what a collector does), unions that turn into AndMaybe/Intersection
+    for mode, nw in (("exact", 6 if quick else 60), ("rank", 4 if quick else 40)):
+        trs, meta, cases = c11.collect(run, rng, nw, 30 if quick else 40, mode, thresholds, quality=True,
+                                       ndocs=(12, 24), depth=2, nsteps=(12, 30),
+                                       ops=["term", "or", "andmaybe", "and", "dismax", "andnot"])
+        c11.judge_traces(run, "C12", trs, meta, "c12-long-" + mode)
+        c11.NOTIMPL.clear()
+        run.extra["quality_events"] += sum(1 for t in trs for e in t if e["ev"] in ("quality", "blockscan", "skipq", "replace"))
     if not run.extra.get("quality_events"):
         run.machinery("vacuity: no quality event recorded")
 
